@@ -165,7 +165,7 @@ def icm_grid_task(task):
         return vals
     fails, n = [], 0
     grids = [(1, 2, 3), (2, 5, 3), (5, 5, 1), (20, 50, 30), (1, 1, 1), (3, 1, 2, 4), (4, 4, 2, 9), (7, 1, 7, 2)]
-    payout_sets = [(100,), (50, 30), (50, 30, 20), (10, 10), (1, 0)]
+    payout_sets = [(100,), (50, 30), (50, 30, 20), (10, 10), (1, 0), (60, 0, 40), (0, 100), (0, 0), (50, 30, 0, 20)]
     for base in grids:
         for chips in sorted(set(itertools.permutations(base))):
             for pay in payout_sets:
